@@ -672,7 +672,7 @@ def rank_alignment(ctx, world, modes=("vjp", "jvp")):
         ir = world.ir(e)
         if ir is None or not ir.ok:
             continue
-        terms = [x for root in (ir.made, ir.result) if root is not None for x in walk(expand(world.ev, root, ()))]
+        terms = [x for root in (ir.made, ir.result) if root is not None for x in walk(expand(world.ev, root, ("autograd.core.vspace",)))]
         zips = []
         for t in terms:
             if t.op == "call" and t.fn.op == "ref" and t.fn.ref.qual == "builtins.zip" and len(t.args) >= 2 and not any(t is z for z in zips):
@@ -710,3 +710,135 @@ def rank_alignment(ctx, world, modes=("vjp", "jvp")):
                 ctx.fail("A3.rank", inst, f"{e.mode}:{e.prim_id}|zip-of-shapes", e.loc, f"`{(norm_text(z.node) if z.node is not None else str(z))[:70]}` pairs the entries of two shapes from the left and nothing in the rule establishes that the two arrays have the same rank: with prepended (broadcast) axes the pairs are shifted", "the operand with fewer dimensions than the result (axes prepended by broadcasting), with a size-1 axis that lines up - left-aligned - with a size-1 entry of the longer shape")
     if n == 0:
         ctx.ob("A3.rank", "no rule pairs the shapes of two different arrays entry by entry with zip()", True, "autograd/numpy/*", nontrivial=False)
+
+
+def restored_rank(ctx, world, modes=("vjp",)):
+    """A3.restore - for the NumPy functions whose result does not have the operand's rank on some path (cumsum & co
+    turn a 0-d operand into a length-1 vector; cumsum / repeat / sort / partition return the flattened, 1-D result
+    when axis=None) the cotangent arrives with the RESULT's shape.  On those paths the value the VJP returns has to be
+    brought to the operand's shape: its root is a reshape whose target is the operand's own shape."""
+    from ..terms import walk as _walk
+    from ..tutil import expand, specialise, truth, unseq
+
+    tab = facts.load("rank_changing_results")
+    prom, flat = set(tab["promotes_0d"]), set(tab["flattens_to_1d"])
+    ctx.describe("A3.restore", "the VJP of a NumPy function whose result does not keep the operand's rank (cumsum family: a 0-d operand becomes a length-1 vector for every axis; cumsum / repeat / sort / partition: 1-D result when axis=None) returns, on every such path, a value reshaped to the operand's own shape (reshape(., shape(x)) / .reshape(x.shape) / vspace(x).shape)")
+
+    def shape_owner(t):
+        while t.op == "seq":
+            t = t.value
+        if t.op == "attr" and t.name == "shape":
+            o = t.obj
+            if o.op == "call":
+                r, _ = resolve_callee(world.ev, o)
+                if r is not None and r.qual.endswith(".vspace") and o.args:
+                    return o.args[0]
+            return o
+        if t.op == "call" and len(t.args) == 1:
+            r, _ = resolve_callee(world.ev, t)
+            if r is not None and is_numpy_callable(r) and base_name(r) == "shape":
+                return t.args[0]
+            if r is not None and r.qual in ("builtins.tuple", "builtins.list"):
+                return shape_owner(t.args[0])
+        if t.op == "sub" and t.idx.op == "const" and t.idx.value == 0 and t.obj.op == "call":
+            r, _ = resolve_callee(world.ev, t.obj)
+            if r is not None and r.qual.endswith(".metadata") and t.obj.args:
+                return t.obj.args[0]
+        return None
+
+    def restoring(leaf, k):
+        """is the leaf reshape(<anything>, <shape of argument k>)?"""
+        while leaf.op == "seq":
+            leaf = leaf.value
+        if leaf.op != "call":
+            return False
+        target = None
+        r, pre = resolve_callee(world.ev, leaf)
+        if r is not None and is_numpy_callable(r) and base_name(r) == "reshape":
+            allargs = list(pre) + list(leaf.args)
+            target = leaf.kw.get("shape") or leaf.kw.get("newshape") or (allargs[1] if len(allargs) >= 2 else None)
+        elif leaf.fn.op == "attr" and leaf.fn.name == "reshape" and leaf.args:
+            target = leaf.args[0] if len(leaf.args) == 1 else None
+        if target is None:
+            return False
+        o = shape_owner(target)
+        return o is not None and o.op == "arg" and o.get("index") == k
+
+    def leaves(t, open_conds=()):
+        """(leaf, the undecided conditions above it)"""
+        if t.op == "seq":
+            yield from leaves(t.value, open_conds)
+        elif t.op == "if":
+            yield from leaves(t.then, open_conds + (t.cond,))
+            yield from leaves(t.other, open_conds + (t.cond,))
+        elif t.op != "raise":
+            yield t, open_conds
+
+    n = 0
+    for e in world.table.entries:
+        if e.spec != "maker" or e.mode not in modes or not world.in_numpy_scope(e) or not is_numpy_callable(e.prim) or e.argnum != 0:
+            continue
+        bn = base_name(e.prim)
+        if bn not in prom and bn not in flat:
+            continue
+        ir = world.ir(e)
+        if ir is None or not ir.ok or ir.result is None:
+            continue
+        psig = world.env.signature(e.prim.qual)
+        k_axis = psig["pos"].index("axis") if psig and "axis" in psig["pos"] else None
+
+        def is_axis_arg(t):
+            return t.op == "arg" and (t.get("name") == "axis" or (k_axis is not None and t.get("index") == k_axis))
+
+        UNK = object()
+
+        def val(t, depth=0):
+            """the value of a term when the primitive was called with axis=None (UNK: not a known constant)"""
+            while t.op == "seq":
+                t = t.value
+            if depth > 12:
+                return UNK
+            if is_axis_arg(t):
+                return None
+            if t.op == "const":
+                return t.value
+            if t.op == "if":
+                d = truth(t.cond, decide)
+                return UNK if d is None else val(t.then if d else t.other, depth + 1)
+            return UNK
+
+        def decide(a):
+            if a.op == "cmp" and a.opname in ("Is", "Eq", "IsNot", "NotEq"):
+                l, r = val(a.l), val(a.r)
+                if l is not UNK and r is not UNK and (l is None or r is None):
+                    eq = l is None and r is None
+                    return eq if a.opname in ("Is", "Eq") else not eq
+                return None
+            v = val(a)
+            if v is None:
+                return False  # truthiness of None
+            return None
+
+        def axis_dependent(c):
+            return any(is_axis_arg(x) for x in _walk(c))
+
+        res = expand(world.ev, ir.result, ("autograd.core.vspace",))
+        paths = []
+        if bn in prom:
+            paths.append(("every axis (0-d operand)", res, "a 0-d operand (NumPy scalar, 0-d array) with axis=0 or axis=-1: the result and the cotangent have shape (1,), the operand has shape ()"))
+        elif bn in flat:
+            paths.append(("axis=None", specialise(res, decide), "a 0-d (or, where accepted, n-d) operand with axis=None: the result is the flattened, 1-D array"))
+        for label, root, witness in paths:
+            for leaf, open_conds in leaves(root):
+                n += 1
+                txt = (norm_text(leaf.node) if leaf.node is not None else str(leaf))[:60]
+                inst = f"{construct_of(e)}|{label}|{txt}"
+                if restoring(leaf, e.argnum):
+                    ctx.ob("A3.restore", inst, True, e.loc)
+                elif label == "axis=None" and any(axis_dependent(c) for c in open_conds):
+                    # whether this leaf lies on the axis=None path hangs on a condition computed from the axis in a
+                    # way the valuation does not decide: not a report
+                    ctx.ob("A3.restore", inst, None, e.loc)
+                else:
+                    ctx.fail("A3.restore", inst, f"{e.mode}:{e.prim_id}|not-restored|{label}", e.loc, f"on the path `{label}` the rule of {bn} returns `{txt}` without reshaping it to the operand's shape: {bn}'s result (and so the cotangent) does not have the operand's rank there", witness)
+    ctx.floor("A3.restore leaves", n, 3)
